@@ -142,6 +142,48 @@ def leaks(value, src, lo, hi):
     return s_or(*conds) if conds else False
 
 
+def default_route(proc):
+    """an application installs its own default configuration (config['bit_config'] rebound after import) and decodes without passing one"""
+    def h():
+        iso = M().iso8583
+        cfgmod = M().config.config
+        from . import packaged
+        new = packaged.bit_config_copy()
+        new['2']['field_processor'] = proc
+        n = sym_int('n', 10 if proc == 'PAN' else 1, 19)
+        src = Source('pan', 't', n)
+        v = src.rope()
+        via = choose('via', ['loads', 'IpmReader'])
+
+        def rp():
+            return {'kind': 'default_route', 'args': {'proc': proc, 'n': ev(n), 'via': via}}
+        core.set_fallback(rp, 'C16/concretised')
+        wire = iso.dumps({'MTI': '1240', 'DE2': v, 'DE3': '000000'}, iso_config=new)
+        old = cfgmod['bit_config']
+        cfgmod['bit_config'] = new
+        try:
+            with guard('decoding under the installed default configuration', 'C16/exception', rp):
+                if via == 'loads':
+                    d = iso.loads(wire)
+                else:
+                    m = M().mciipm
+                    f = RopeFile()
+                    w = m.VbsWriter(f)
+                    w.write(wire)
+                    w.close()
+                    d = next(m.IpmReader(f))
+        finally:
+            cfgmod['bit_config'] = old
+        got = d.get('DE2')
+        if proc == 'PAN':
+            want = cat('t', sl(v, 0, 6), mk('t', [Fill('*', n - 10)]) if not same_int(n, 10) else '', sl(v, n - 4, n))
+        else:
+            want = sl(v, 0, 9)
+        req_eq(got, want, 'DE2 is not the masked value / prefix under the installed default configuration', key='C16/proc-value', replay=rp)
+        return {'sample': {'n': ev(n), 'proc': proc, 'via': via}, 'replay': rp()}
+    return h
+
+
 def processor(proc, enc, hexbm=False, prior=None):
     """prior: None, 'same-object' (the configuration object decodes a message before the processor is switched on in it) or 'copied-after-use'
     (the packaged configuration decodes a message, then a deep copy of it gets the processor)"""
@@ -203,6 +245,9 @@ def obligations(tier):
     for proc in ('PAN', 'PAN-PREFIX'):
         obs.append(Ob('processor-typed/%s' % proc, typed_processor(proc), 120,
                       '%s on DE2/DE32/DE100 combined with python types none/string/int/long; concrete card numbers from a family (10..19 digits, repeated digits)' % proc, _funcs))
+    for proc in ('PAN', 'PAN-PREFIX'):
+        obs.append(Ob('processor/%s/installed-default-configuration' % proc, default_route(proc), 300,
+                      'config["bit_config"] rebound at run time to a configuration with the %s processor on DE2; loads / IpmReader called without a configuration' % proc, _funcs))
     for proc in ('PAN', 'PAN-PREFIX'):
         obs.append(Ob('processor/%s/hex-bitmap' % proc, processor(proc, 'cp500' if proc == 'PAN' else 'latin_1', hexbm=True), 600,
                       '%s through the hexadecimal bitmap rendering' % proc, _funcs))
